@@ -313,6 +313,20 @@ def run(ctx):
                                  {"start": start, "end": end, "duration": d, "hop": h, "inc": inc}, nontrivial=len(want) >= 2)
                         judge(ctx, start, end, d, h, inc, ids=(k % 37 == 0))
 
+    # exact near misses: the clip ends a hair (2**-k) before / after the end of a window on the hop lattice; every value
+    # is dyadic, so the model decides exactly which windows fit (no tolerance applies)
+    for _ in range(ctx.scale(400, 3000)):
+        start = rng.choice([0.0, 1.0, 0.5, 16.0])
+        d = rng.choice([0.25, 1.0, 2.0, 4.0]); h = rng.choice([None, 0.25, 1.0, 2.0])
+        hh = d if h is None else h
+        nwin = rng.randint(1, 6)
+        eps = rng.choice([-1, 1, 0]) * 2.0 ** -rng.choice([20, 30, 32, 40, 45])
+        end = start + (nwin - 1) * hh + d + eps
+        inc = rng.random() < 0.4
+        want, _ = model(start, end, d, hh, inc)
+        ctx.case(("near_miss", "short" if eps < 0 else "long" if eps > 0 else "exact") + _cls(end - start, d, hh, inc),
+                 {"start": start, "end": end, "duration": d, "hop": h, "inc": inc}, nontrivial=True)
+        judge(ctx, start, end, d, h, inc)
     for _ in range(ctx.scale(1500, 8000)):
         style = rng.choice(["decimal", "decimal", "free", "tiny_hop", "samples", "submilli"])
         if style == "decimal":
